@@ -1,6 +1,6 @@
 (* C35 — The SQL parser never crashes and ignores keyword case.
    Only statements closed by [exact]; proofs live in proofs/SqlParseProofs.v. *)
-From KS Require Import lib.Base model.SqlParse proofs.SqlParseProofs proofs.SqlParseCaseProofs.
+From KS Require Import lib.Base model.SqlParse proofs.SqlParseProofs proofs.SqlParseCaseProofs proofs.SqlParseKwProofs.
 Open Scope Z_scope.
 
 (* the lowering the fixed parser computes its offsets on keeps the byte length,
@@ -26,20 +26,48 @@ Theorem C35_never_crashes : forall ulower ts_err jexpr_ok raw,
 Proof. exact parse_never_panics. Qed.
 Print Assumptions C35_never_crashes.
 
-(* ASCII letter case never matters: two texts with the same ASCII-lower-cased form
-   (in particular a query and any re-casing of its keywords) parse to the same
-   query, error for error and field for field — topic, aliases, join, filters,
-   group/order, scan — the raw display strings (SelectColumn.Raw, join expression
-   texts) being equal up to ASCII case. The regular-expression oracles and
-   strings.ToLower are assumed case-insensitive in the same sense. *)
+(* Keyword case never matters: if q' is q with the case of ASCII letters changed
+   anywhere outside single-quoted literals ([kwvar]; keywords, function names and
+   identifiers are outside, timestamp and JSON-path literals are data), both parse
+   to the same query, error for error and field for field, the raw display strings
+   (SelectColumn.Raw, join expression texts) being equal up to ASCII case.
+   Oracle premises: strings.ToLower and parseJoinExpr's verdict do not depend on
+   ASCII case (true of the code: ToLower folds it, parseJoinExpr uses (?i)
+   expressions and lower-cased column names); parseTSFilters' verdict does not
+   depend on the case of text outside quoted literals (its keywords _ts / between /
+   and are matched with (?i); the literals are untouched by [kwvar]). *)
 Theorem C35_keyword_case : forall ulower ts_err jexpr_ok,
+  (forall a b, ascii_lower a = ascii_lower b -> ulower a = ulower b) ->
+  (forall a b, ascii_lower a = ascii_lower b -> jexpr_ok a = jexpr_ok b) ->
+  (forall a b, kwvar a b -> ts_err a = ts_err b) ->
+  forall q q', kwvar q q' ->
+  norm_res (parse ulower ts_err jexpr_ok q) = norm_res (parse ulower ts_err jexpr_ok q').
+Proof. exact parse_keyword_variant. Qed.
+Print Assumptions C35_keyword_case.
+
+(* the same for every change of ASCII case (also inside literals) when the
+   timestamp oracle ignores that as well — e.g. for texts without timestamp literals *)
+Theorem C35_ascii_case : forall ulower ts_err jexpr_ok,
   (forall a b, ascii_lower a = ascii_lower b -> ulower a = ulower b) ->
   (forall a b, ascii_lower a = ascii_lower b -> ts_err a = ts_err b) ->
   (forall a b, ascii_lower a = ascii_lower b -> jexpr_ok a = jexpr_ok b) ->
   forall q q', ascii_lower q = ascii_lower q' ->
   norm_res (parse ulower ts_err jexpr_ok q) = norm_res (parse ulower ts_err jexpr_ok q').
 Proof. exact parse_case_insensitive. Qed.
-Print Assumptions C35_keyword_case.
+Print Assumptions C35_ascii_case.
+
+(* [kwvar] relates a query to its re-cased form and tells literals apart:
+   select a, '$.T' from t  ~  SELECT A, '$.T' FROM T   but not  ... '$.t' ... *)
+Example C35_kwvar_example :
+  kwvar [115;101;108;101;99;116;32;97;44;32;39;36;46;84;39;32;102;114;111;109;32;116]
+        [83;69;76;69;67;84;32;65;44;32;39;36;46;84;39;32;70;82;79;77;32;84] /\
+  ~ kwvar [115;101;108;101;99;116;32;97;44;32;39;36;46;84;39;32;102;114;111;109;32;116]
+          [83;69;76;69;67;84;32;65;44;32;39;36;46;116;39;32;70;82;79;77;32;84].
+Proof.
+  split.
+  - unfold kwvar. cbn. repeat split.
+  - unfold kwvar. cbn. intros H. do 13 (destruct H as [_ H]). destruct H as [H _]. discriminate H.
+Qed.
 
 (* non-vacuity: the model parses a join query and an explain; and the length
    hypothesis is necessary — with a lowering that lengthens U+023A (what
